@@ -71,7 +71,7 @@ fn c14s(args: &Args) -> ! {
         vec![(1, 1, 2), (1, 2, 3), (1, 4, 4), (2, 4, 3), (2, 2, 3), (3, 2, 4), (1, 3, 5), (1, 2, 103)]
     };
     let t_start = Instant::now();
-    let budget = Duration::from_secs(if thorough { 1200 } else { 25 });
+    let budget = Duration::from_secs(if thorough { 1200 } else { 20 });
     let ncfg = configs.len();
     let group_size = (args.nshards / ncfg).max(1);
     let my: Vec<(usize, usize, usize)> = configs.iter().enumerate().filter(|(ci, _)| if args.nshards < ncfg { ci % args.nshards == args.shard } else { (args.shard / group_size) % ncfg == *ci && args.shard < group_size * ncfg }).map(|(_, c)| *c).collect();
